@@ -89,7 +89,7 @@ def check_history(cfg, hist, expected):
 
 
 def run_one(ch, env):
-    cfg = common.draw_pyramid(ch)
+    cfg = common.draw_pyramid(ch, allow_deep=True)
     workers = common.draw_workers(ch)
     nyield = ch.draw(4, kind="cb_yields")
     expected = cfg.live_parents()
